@@ -12,13 +12,13 @@ PROP = 'C16'
 THEOREMS = ['C16_block_partition_irrelevant', 'C16_generic_layouts_legal', 'C16_examples']
 TYPES = ['scalars', 'inner', 'suit', 'nested', 'renamed', 'node', 'wrap-inner', 'wrap-suit', 'shape', 'with-shapes', 'reuse',
          'units', 'vec-unit', 'vec-nothing', 'one-tuple-single', 'one-array-single', 'one-tuple-link', 'one-tuple-inner', 'pair',
-         'array3', 'one-tuple-int', 'case-pascal', 'case-lower', 'case-upper', 'case-snake', 'case-screaming', 'case-camel', 'lower-units', 'snake-units', 'skipping', 'many', 'with-many', 'rename-rules', 'kebab-units', 'with-rules', 'reversed', 'reversed-defaults', 'interleaved', 'rotated']
+         'array3', 'one-tuple-int', 'blobs', 'blobs2', 'case-pascal', 'case-lower', 'case-upper', 'case-snake', 'case-screaming', 'case-camel', 'lower-units', 'snake-units', 'skipping', 'many', 'with-many', 'rename-rules', 'kebab-units', 'with-rules', 'reversed', 'reversed-defaults', 'interleaved', 'rotated']
 PLAIN = ['scalars', 'inner', 'suit', 'nested', 'renamed', 'node', 'wrap-inner', 'wrap-suit', 'reuse', 'units', 'vec-unit',
          'vec-nothing', 'case-pascal', 'case-lower', 'case-upper', 'case-snake', 'case-screaming', 'case-camel', 'lower-units', 'snake-units', 'skipping', 'many', 'with-many', 'kebab-units', 'reversed', 'reversed-defaults', 'interleaved', 'rotated']   # no data-carrying enums, no tuples (to_value maps a tuple to an array, the schema-aware path to a record)
-FROMV_UNSUPPORTED = {'shape', 'with-shapes', 'rename-rules', 'with-rules', 'one-tuple-single', 'one-array-single', 'one-tuple-link', 'one-tuple-inner', 'pair', 'array3', 'one-tuple-int'}
+FROMV_UNSUPPORTED = {'blobs', 'blobs2', 'shape', 'with-shapes', 'rename-rules', 'with-rules', 'one-tuple-single', 'one-array-single', 'one-tuple-link', 'one-tuple-inner', 'pair', 'array3', 'one-tuple-int'}
 BLOCKS = ['', '1', '16', '100000']
 CFG = '(cfg 536870912 56 80)'
-RULE = ('corpus of 39 Rust types (derived structs and enums, tuples, fixed arrays, vectors of zero-width items, structs whose field order differs from that of a hand-written schema - reversed, interleaved, rotated, with defaults; enums under serde rename_all / rename_all_fields / rename; a 130-symbol enum bare, optional, in lists and maps; fields serde omits with schema defaults of every JSON kind; every serde case rule that yields legal names) (integers of all widths, floats, char, String, Option, Vec, nested Vec, string-keyed '
+RULE = ('corpus of 41 Rust types (derived structs and enums, tuples, fixed arrays, vectors of zero-width items, structs whose field order differs from that of a hand-written schema - reversed, interleaved, rotated, with defaults; enums under serde rename_all / rename_all_fields / rename; a 130-symbol enum bare, optional, in lists and maps; fields serde omits with schema defaults of every JSON kind; every serde case rule that yields legal names; serde_bytes fields under unions holding both a fixed and bytes) (integers of all widths, floats, char, String, Option, Vec, nested Vec, string-keyed '
         'HashMap, nested structs, unit enums, data enums, renamed / defaulted / skipped fields, recursion through Box and Vec, '
         'generics) x generated values x target block sizes {none, 1, 16, large}. non-trivial = distinct (type, value) pairs')
 
